@@ -370,6 +370,8 @@ class Loopback(worlds.World):
     def roundtrip(self, m):
         """-> (problem or None)"""
         n0 = len(self.t_tx.written)
+        self.log0 = len(self.net.log)
+        self.count = getattr(self, "count", 0) + 1
         res = {}
 
         async def drv():
@@ -397,8 +399,16 @@ class Loopback(worlds.World):
         g0 = len(self.got)
         if self.t_rx._closing or not self.rx.is_connected:
             return "HARNESS: receiver lost its connection"
-        self.t_rx.peer_send(raw)
-        self.loop.settle()
+        if self.count % 2:
+            self.t_rx.peer_send(raw)
+            self.loop.settle()
+        else:
+            # as written: the send path emits header, payload and check bytes as three chunks, which a peer
+            # may well receive as three segments
+            for e in self.net.log[self.log0:]:
+                if e[1] == "write" and e[2] == self.t_tx.cid:
+                    self.t_rx.peer_send(e[3])
+                    self.loop.settle()
         if len(self.net.conns) > 2:
             # the receive path rejected the frame and reset: re-sync the harness
             self.t_rx = self.net.live()[-1]
